@@ -197,6 +197,17 @@ def corpus(ctx):
     for k in range(10):
         pred[0, 2 + 2 * k:4 + 2 * k] = k + 1
     one_case(ctx, pred, ref, [], "corpus.uint8-many-unmatched")
+    # more unmatched predictions than labels left below the dtype maximum, next to a matched high reference label and a missed
+    # low one: whatever labels the strays receive, none may be a reference label (matched or not) and no two may coincide
+    for dt, hi in ((np.uint8, 250), (np.uint16, 65530)):
+        ref = np.zeros((1, 40), dt)
+        pred = np.zeros((1, 40), dt)
+        ref[0, 0:2] = 1                # missed reference with a low label
+        ref[0, 3:6] = hi               # matched reference with a high label
+        pred[0, 3:6] = 40
+        for k in range(11):
+            pred[0, 8 + 2 * k:10 + 2 * k] = k + 1          # eleven stray predictions (one of them labelled 1)
+        one_case(ctx, pred, ref, [[40, hi]], "corpus.more-strays-than-labels-left")
     # reference labels with gaps: fresh labels must not land on an existing reference label
     ref = np.zeros((1, 12), np.uint8)
     pred = np.zeros((1, 12), np.uint8)
